@@ -34,6 +34,18 @@ func litProblem(v interface{}, tv types.TypeAndValue, known bool, text string) s
 	if tv.Value == nil {
 		return fmt.Sprintf("%q is not a constant expression", text)
 	}
+	if rc, ok := v.(runeConst); ok {
+		if tv.Value == nil || types.Default(tv.Type).String() != "rune" && types.Default(tv.Type).String() != "int32" {
+			return fmt.Sprintf("%q is not a rune constant (type %s)", text, tv.Type)
+		}
+		if got, exact := constant.Int64Val(tv.Value); !exact || got != int64(rc) {
+			return fmt.Sprintf("%q evaluates to %s, want rune %d", text, tv.Value, int(rc))
+		}
+		if !strings.HasPrefix(text, "'") {
+			return fmt.Sprintf("%q is not written as a rune literal", text)
+		}
+		return ""
+	}
 	wantType := reflect.TypeOf(v).String()
 	gotType := types.Default(tv.Type).String()
 	if wantType == "uint8" && gotType == "byte" {
@@ -451,8 +463,104 @@ func runC11(r *mon.Run) {
 	}
 	r.Put("exhaustive_types", exhTypes)
 	mon.Parallel(len(batches), func(bi int) { c11Batch(r, batches, bi) })
+	c11MixedKinds(r)
 	r.Sample(map[string]interface{}{"batch": batches[len(batches)/2].name, "first_values": fmt.Sprintf("%v", first2(batches[len(batches)/2].vals, 8))})
 }
+
+// c11MixedKinds: one File in which the same number appears as a rune literal, a byte literal and as Lit of
+// several integer types, in changing order (a literal must not depend on what the File rendered before), and
+// long lists made of numeric literals only.
+func c11MixedKinds(r *mon.Run) {
+	rnd := r.Rand("C11/mixed", 0)
+	for round := 0; round < r.Pick(20, 400); round++ {
+		c := mon.Case{Gen: "mixed", Seed: r.Seed, Index: int64(round)}
+		f := jen.NewFile("p")
+		var want []interface{}
+		n := 0
+		add := func(st *jen.Statement, v interface{}) {
+			f.Var().Id(fmt.Sprintf("X%d", n)).Op("=").Add(st)
+			want = append(want, v)
+			n++
+		}
+		for i := 0; i < 60; i++ {
+			v := rnd.Intn(200)
+			order := rnd.Perm(6)
+			for _, k := range order {
+				switch k {
+				case 0:
+					add(jen.LitRune(rune(v)), runeConst(v))
+				case 1:
+					add(jen.Lit(int32(v)), int32(v))
+				case 2:
+					add(jen.LitByte(byte(v)), uint8(v))
+				case 3:
+					add(jen.Lit(uint8(v)), uint8(v))
+				case 4:
+					add(jen.Lit(v), v)
+				default:
+					add(jen.Lit(float64(v)), float64(v))
+				}
+			}
+		}
+		src, fail := renderFile(f)
+		if fail != "" {
+			r.Violate("render-failure", c, "mixed-kind file does not render: %s", fail)
+			continue
+		}
+		probs, fatal := judgeLitSource(src, want)
+		if fatal != "" {
+			r.Violate("batch-unusable", c, "mixed-kind file: %s", fatal)
+		}
+		for i, p := range probs {
+			r.Violate("literal-mixed-kinds", c, "in a File that mixes rune, byte and integer literals of equal value, item %d (%T %v): %s", i, want[i], want[i], p)
+		}
+		// numeric-only lists of 40-120 items
+		var items []jen.Code
+		var lw []interface{}
+		for i, m := 0, 40+rnd.Intn(81); i < m; i++ {
+			var v interface{}
+			switch rnd.Intn(7) {
+			case 0:
+				v = float64(rnd.Intn(1000))
+			case 1:
+				v = rnd.Float64() * 100
+			case 2:
+				v = 1e+06 * float64(1+rnd.Intn(9))
+			case 3:
+				v = uint8(rnd.Intn(256))
+			case 4:
+				v = rnd.Intn(100000)
+			case 5:
+				v = float32(rnd.Intn(50))
+			default:
+				v = int64(rnd.Intn(1 << 40))
+			}
+			lw = append(lw, v)
+			items = append(items, jen.Lit(v))
+		}
+		g := jen.NewFile("p")
+		g.Var().Id("L").Op("=").Index().Interface().Values(items...)
+		g.Var().Id("M").Op("=").Index().Interface().ValuesFunc(func(gr *jen.Group) {
+			for _, v := range lw {
+				gr.Lit(v)
+			}
+		})
+		if src, fail := renderFile(g); fail != "" {
+			r.Violate("render-failure", c, "numeric list of %d literals does not render: %s", len(lw), fail)
+		} else if probs, fatal := judgeLitList(src, lw); fatal != "" {
+			r.Violate("batch-unusable", c, "numeric list: %s", fatal)
+		} else {
+			for i, p := range probs {
+				r.Violate("literal-in-list-numeric", c, "item %d of a %d-item list of numeric literals, %T(%v): %s", i%len(lw), len(lw), lw[i%len(lw)], lw[i%len(lw)], p)
+			}
+		}
+		r.Count("mixed_kind_files", 1)
+		r.Count("numeric_only_lists", 1)
+	}
+}
+
+// runeConst marks a value that must come out as a rune literal (an untyped rune constant: default type int32).
+type runeConst int
 
 func first2(s []interface{}, n int) []interface{} {
 	if len(s) > n {
